@@ -1,6 +1,6 @@
 (** Pinned statements of the C07 property theorems: compiled on every check, so a theorem cannot be
     weakened silently. *)
-From V Require Import Base.Util Gql.Ast Peg.Peg Gen.C07_grammar_gen C07.Builder C07.Model C07.AstEq C07.Spec C07.Proofs C07.Lexical C07.Strings C07.Escapes C07.Numbers C07.Fuel C07.Shapes C07.Render C07.RenderValues C07.RenderArgs C07.RenderDirs C07.RenderSel C07.Properties.
+From V Require Import Base.Util Gql.Ast Peg.Peg Gen.C07_grammar_gen C07.Builder C07.Model C07.AstEq C07.Spec C07.Proofs C07.Lexical C07.Strings C07.Escapes C07.Numbers C07.Fuel C07.Shapes C07.Render C07.RenderValues C07.RenderArgs C07.RenderDirs C07.RenderValid C07.RenderSel C07.RenderDefs C07.Properties.
 From V Require Import Peg.PegShape.
 From V Require Import Peg.PegProps.
 
@@ -160,7 +160,11 @@ Check (C07_parse_render_selection_set : forall ss, wf_ss ss = true ->
     let i := slen pre in
     pair_rule (T i) = R_SelectionSet
     /\ runs gql_grammar true ANon (Call R_SelectionSet) (ss_text ss ++ rest) i (Ok (rest, (i + slen (ss_text ss))%N, [T i]))
+    /\ validate_pair inp (T i) = VOk
     /\ exists ss', build_selection_set inp file (T i) = BOk ss' /\ ss_erase ss' = erase_ss ss).
+Check (C07_parse_render_operation_document : forall g0 defs file, wf_doc g0 defs = true ->
+  exists doc, parse_operation_document file (doc_text g0 defs) = POk doc
+              /\ map def_erase (od_defs doc) = map erase_def defs).
 Print Assumptions C07_positions_true.
 Print Assumptions C07_lone_cr_refuted.
 Print Assumptions C07_block_string_refuted.
@@ -191,3 +195,4 @@ Print Assumptions C07_parse_render_directive_args.
 Print Assumptions C07_parse_render_directive_noargs.
 Print Assumptions C07_parse_render_directives.
 Print Assumptions C07_parse_render_selection_set.
+Print Assumptions C07_parse_render_operation_document.
